@@ -7,6 +7,7 @@ RUNS=${1:-3000000}; SEED=${2:-1}
 ROOT=${VERIF_ROOT:-$(cd "$(dirname "$0")/.." && pwd)}
 cd "$ROOT/fuzz" || exit 2
 cp /repo/Cargo.lock . 2>/dev/null
+mkdir -p target
 if ! cargo fuzz build --fuzz-dir . parse > target/fuzz-build.log 2>&1; then
   mkdir -p target; echo "FUZZ BUILD FAILED"; tail -20 target/fuzz-build.log; exit 2
 fi
